@@ -6,16 +6,16 @@
   Spec:   PdshVerif/Cbuf/Spec.lean   (a plain FIFO `q : List UInt8` with a capacity)
 
   What is proved (for ALL buffers, sizes, modes, contents and operation histories):
-  * every history over write / write-from-descriptor / read / peek / drop / read_line /
-    peek_line / drop_line / flush / opt_set, started from `cbuf_create`, is accepted step by
+  * every history over write / write-from-descriptor / write_line / read / peek / drop /
+    read_line / peek_line / drop_line / flush / opt_set, started from `cbuf_create`, is accepted step by
     step by the FIFO specification with identical answers, and the abstraction (the unread
     bytes) commutes with every step                              (`history_refines_fifo`);
   * the invariant checked by `cbuf_is_valid` holds in every reachable state
     (`reachable_valid`), hence `min ≤ size ≤ max` and `used ≤ size` (`size_bounds`);
   * facts about the specification that say what "FIFO with exact drop accounting" means:
     conservation of bytes, suffix property, no-drop mode loses nothing, all-or-nothing lines.
-  NOT proved here: `cbuf_write_line` as a refinement step (it is part of the correspondence
-  check only), the replay/rewind/copy/move entry points (not in the property's operation list).
+  NOT modelled: the replay/rewind/copy/move entry points (not in the property's operation list),
+  `cbuf_read_to_fd`/`cbuf_peek_to_fd` with short writes (exercised by the correspondence only).
 -/
 import PdshVerif.Cbuf.Ops
 
